@@ -132,7 +132,11 @@ def new_dag(it, hint='dag'):
     st = it.st
     g = GraphOps.fresh_base(it, 'G')
     nm = st.alloc('dict', map=SymMap.fresh(st, 'node_map'))
-    return new_obj(it, DAG_CLS, graph=g, input_node=SymV(st.fresh_val('input_node')),
+    from pyvc.values import ClsRef
+    rp = it.repo.klass('ml_pipeline_engine/node/retrying.py', 'NodeRetryPolicy')
+    rm = it.repo.klass(MANAGER_PY, 'DAGRunConcurrentManager')
+    return new_obj(it, DAG_CLS, graph=g, retry_policy=ClsRef(rp.key, rp), run_manager=ClsRef(rm.key, rm),
+                   input_node=SymV(st.fresh_val('input_node')),
                    output_node=SymV(st.fresh_val('output_node')), node_map=nm,
                    is_process_pool_needed=SymB(st.fresh_bool('need_proc')),
                    is_thread_pool_needed=SymB(st.fresh_bool('need_thr')))
